@@ -26,7 +26,7 @@ func genC15(seed uint64, tier string, idx int) *Plan {
 		if tier == "thorough" && g.r.chance(10) {
 			cm = 20000
 		}
-		g.genUpload(ci, attOpts{maxFiles: 4, maxChunks: 5, chunkMax: cm, dups: g.r.chance(50), markerPct: 15, withhold: g.r.chance(25), grouped: g.r.chance(35), second: g.r.chance(12), again1211: true})
+		g.genUpload(ci, attOpts{maxFiles: 4, maxChunks: 5, chunkMax: cm, dups: g.r.chance(50), markerPct: 15, withhold: g.r.chance(25), grouped: g.r.chance(35), second: g.r.chance(12), again1211: true, reuse: g.r.chance(15)})
 	}
 	p.Sched = g.sched()
 	p.MaxStep = 200000
@@ -134,26 +134,47 @@ func checkC15(r *Result) []Violation {
 			}
 			a := r.AttEvs[e.Ref-1]
 			n := unitsDeliveredBefore(r, ci, e.Step+1)
+			// the files of that name announced so far (a name may be used again by a later alarm; the server has
+			// processed some prefix of what was delivered, so the report is about one of them): the report is right
+			// if it is right for one of them
+			announced := len(up.Files)
+			for _, u := range units[:n] {
+				if u.ID == 0x1210 && !u.Chunk && u.Xfer > 0 {
+					announced = u.Xfer
+				}
+			}
+			var firstBad *Violation
+			okForOne, cands := false, 0
 			for fi, f := range up.Files {
-				if string(f.Name) != a.CurName {
+				if string(f.Name) != a.CurName || fi >= announced {
 					continue
 				}
+				cands++
 				var got []ivl
 				for _, u := range units[:n] {
 					if u.Chunk && u.File == fi+1 {
 						got = append(got, ivl{u.Off, u.Off + len(u.Body)})
 					}
 				}
+				var v *Violation
 				if miss := missingRanges(f.size(), got); len(miss) > 0 {
-					bad("complete_with_bytes_missing", fmt.Sprintf("conn %d: file %q (%d bytes) reported complete although bytes %v had not arrived", ci, f.Name, f.size(), miss), e.Step)
-					return vs
+					v = &Violation{Prop: "C15", Rule: "C15.complete_with_bytes_missing", Sig: "C15.complete_with_bytes_missing", Step: e.Step,
+						Msg: fmt.Sprintf("conn %d: file %q (%d bytes) reported complete although bytes %v had not arrived", ci, f.Name, f.size(), miss)}
 				}
 				for _, fs := range a.Files {
-					if fs.Name == string(f.Name) && !bytes.Equal(fs.Body, f.Data) {
-						bad("wrong_content", fmt.Sprintf("conn %d: file %q reported complete with %d bytes that differ from the %d bytes sent", ci, f.Name, len(fs.Body), f.size()), e.Step)
-						return vs
+					if v == nil && fs.Name == string(f.Name) && !bytes.Equal(fs.Body, f.Data) {
+						v = &Violation{Prop: "C15", Rule: "C15.wrong_content", Sig: "C15.wrong_content", Step: e.Step,
+							Msg: fmt.Sprintf("conn %d: file %q reported complete with %d bytes that differ from the %d bytes sent", ci, f.Name, len(fs.Body), f.size())}
 					}
 				}
+				if v == nil {
+					okForOne = true
+				} else {
+					firstBad = v
+				}
+			}
+			if cands > 0 && !okForOne {
+				return append(vs, *firstBad)
 			}
 		}
 		// a 0x9212 saying "complete" likewise
